@@ -203,12 +203,29 @@ package ociserver
 //@   ensures[error-means-nil] result.1 != nil ==> len(result.0) == 0
 //@   loop 0 invariant forall k int :: 0 <= k && k < len(ranges) ==> wfRange(ranges[k])
 
+// C05: one page of a listing. offered()/offeredAt(i) are the items the
+// backend's iterator offers. The page is a prefix of what was offered, in
+// order; it is cut short only at the requested page size, and then (unless
+// links are switched off) the Link header names the last item of the page.
 //@ func (*registry).nextListResults
 //@   private rreq, req
 //@   requires req != nil && req.URL != nil && rreq != nil && itemsIter != nil
 //@   closure 1 invariant truncated ==> len(items) >= 1
+//@   closure 1 invariant len(items) <= offered() && forall j int :: 0 <= j && j < len(items) ==> items[j] == offeredAt(j)
+//@   closure 1 invariant rreq.ListN > 0 ==> len(items) <= rreq.ListN
+//@   closure 1 invariant !truncated ==> len(items) == offered()
+//@   closure 1 invariant truncated ==> len(items) == rreq.ListN && offered() > len(items)
+//@   ensures[a-prefix-of-the-listing-in-order] result.2 == nil ==> len(result.0) <= offered() &&
+//@     forall j int :: 0 <= j && j < len(result.0) ==> result.0[j] == offeredAt(j)
+//@   ensures[never-more-than-asked] result.2 == nil && rreq.ListN > 0 ==> len(result.0) <= rreq.ListN
+//@   ensures[short-only-at-the-page-size] result.2 == nil && len(result.0) < offered() ==> rreq.ListN > 0 && len(result.0) == rreq.ListN
+//@   ensures[cut-page-carries-a-link-to-its-last-item] result.2 == nil && len(result.0) < offered() && !r.opts.OmitLinkHeaderFromResponses ==>
+//@     calls == [itemsIter(_), r.makeNextLink(req, result.0[len(result.0) - 1])] && result.1 == calls[1].result
+//@   ensures[complete-page-carries-no-link] result.2 == nil && len(result.0) == offered() ==> result.1 == ""
+//@   ensures[iterator-error-is-the-answer] _err != nil ==> result.2 == _err
 
 //@ func (*registry).makeNextLink
+//@   log
 //@   requires req != nil && req.URL != nil
 
 // chunkRange: the offset and length announced by the request. With a
